@@ -151,6 +151,171 @@ def install(it):
     def trace(it, args, kw):
         return tuple(it.p.trace)
 
+    # ---- folds over symbolic sequences --------------------------------------------------
+    def elem_fn(it, fn, sv):
+        from . import folds
+        from .values import FuncVal
+        if isinstance(fn, str):
+            return folds.member_fn(it, sv.elem, fn)
+        if isinstance(fn, FuncVal):
+            rd = it.hooks.get('spec_fn_types', {}).get(fn.qualname)
+            if rd is None:
+                raise Unsupported('spec function %s has no declared result type (elem_fn_type)' % fn.qualname)
+            return folds.spec_fn(it, sv.elem, fn, rd)
+        raise Unsupported('element function %r' % (fn,))
+    it.elem_fn = elem_fn
+
+    def as_seq(it, v, elem=None):
+        from . import folds
+        if isinstance(v, SeqVal):
+            return v
+        if isinstance(v, ListVal):
+            if elem is None:
+                raise Unsupported('fold over a concrete list needs the element type')
+            return folds.list_to_seq(it, v, elem)
+        raise Unsupported('fold over %r' % (v,))
+
+    def fold_call(kind):
+        def f(it, args, kw):
+            from . import folds
+            fn, seq = args[0], args[1]
+            sv = as_seq(it, seq, kw.get('elem'))
+            ef = elem_fn(it, fn, sv)
+            return folds.get_fold(it, kind, ef).apply(it, sv.term)
+        return f
+    pre['join_map'] = Builtin('spec.join_map', fold_call('JOIN'))
+    pre['sum_map'] = Builtin('spec.sum_map', fold_call('SUM'))
+    pre['all_map'] = Builtin('spec.all_map', fold_call('ALL'))
+
+    @reg('reveal_head')
+    def reveal_head(it, args, kw):
+        from . import folds
+        sv = args[0]
+        efs = [elem_fn(it, fn, sv) for fn in args[1:]]
+        return folds.reveal_head(it, sv, efs)
+
+    @reg('find_join_arg')
+    def find_join_arg(it, args, kw):
+        """ghost witness: (xs, rest) with  b == JOIN[fn](xs) ++ rest, found syntactically"""
+        from . import folds
+        fn, b, elem = args
+        ef = folds.member_fn(it, elem, fn) if isinstance(fn, str) else \
+            folds.spec_fn(it, elem, fn, it.hooks.get('spec_fn_types', {}).get(fn.qualname))
+        fold = folds.get_fold(it, 'JOIN', ef)
+        if isinstance(b, bytes):
+            if b == b'':
+                return SeqVal(z3.Empty(z3.SeqSort(it.types.sort_of(elem))), elem), b''
+            raise Unsupported('find_join_arg on concrete bytes')
+        s = z3.simplify(b)
+
+        def is_F(t):
+            return z3.is_app(t) and t.decl().eq(fold.F)
+        if is_F(s):
+            return SeqVal(s.arg(0), elem), b''
+        if z3.is_app(s) and s.decl().kind() == z3.Z3_OP_SEQ_CONCAT and is_F(s.arg(0)):
+            rest = [s.arg(i) for i in range(1, s.num_args())]
+            return SeqVal(s.arg(0).arg(0), elem), smt.concat(rest)
+        # semantic fallback: any applied sequence whose JOIN provably equals b
+        for st in fold.applied.values():
+            if it.p.must(b == fold.F(st)):
+                return SeqVal(st, elem), b''
+        raise Unsupported('find_join_arg: %s is not of the form JOIN[%s](xs) ++ rest' % (str(s)[:120], ef.name))
+
+    @reg('copy_stream')
+    def copy_stream(it, args, kw):
+        st = args[0]
+        n = Stream(st.before, st.rem, st.name + '-copy')
+        n.closed = st.closed
+        return n
+
+    @reg('advance_stream')
+    def advance_stream(it, args, kw):
+        """effect of a decoder seen through its contract: `consumed` bytes move behind the
+        position, `rest` remains"""
+        import ast
+        st, consumed, rest = args
+        st.before = it.binop(ast.Add(), st.before, consumed)
+        st.rem = rest
+        st.last_read = None
+
+    @reg('empty_seq')
+    def empty_seq(it, args, kw):
+        elem = args[0]
+        return SeqVal(z3.Empty(z3.SeqSort(it.types.sort_of(elem))), elem)
+
+    @reg('seq_len')
+    def seq_len_(it, args, kw):
+        from . import folds
+        return folds.seq_len(args[0])
+
+    @reg('same')
+    def same(it, args, kw):
+        """equality that also covers None on either side"""
+        a, b = args
+        if a is None or b is None:
+            return a is None and b is None
+        return ops.values_equal(it, a, b)
+
+    @reg('utf8_ok')
+    def utf8_ok(it, args, kw):
+        b = args[0]
+        if isinstance(b, bytes):
+            try:
+                b.decode('utf8')
+                return True
+            except UnicodeDecodeError:
+                return False
+        return smt.UTF8_OK(b)
+
+    @reg('nonul_ends')
+    def nonul_ends(it, args, kw):
+        b = args[0]
+        if isinstance(b, bytes):
+            return b == b.strip(b'\0')
+        return smt.NONUL_ENDS(b)
+
+    @reg('enc')
+    def enc(it, args, kw):
+        s = args[0]
+        if isinstance(s, str):
+            return s.encode('utf8')
+        return it.p.facts.enc(s)
+
+    @reg('kind_of')
+    def kind_of(it, args, kw):
+        """class name of an element (case split over the family's constructors if packed)"""
+        x = args[0]
+        if isinstance(x, Packed):
+            from .pack import unpack
+            x = unpack(it, x)
+        if isinstance(x, Obj):
+            return x.cls.name
+        raise Unsupported('kind_of(%r)' % (x,))
+
+    @reg('no_pad_at_ends')
+    def no_pad_at_ends(it, args, kw):
+        """AE title without padding characters (NUL, space) at either end"""
+        s = args[0]
+        if isinstance(s, str):
+            return s == s.strip('\0 ')
+        return smt.NONUL_ENDS(it.p.facts.enc(s))
+
+    @reg('ae_title_field')
+    def ae_title_field(it, args, kw):
+        """PS3.8 9.3.2: 16 characters, padded with trailing spaces"""
+        s = args[0]
+        if isinstance(s, str):
+            return s.encode('ascii').ljust(16, b' ')[:16]
+        b = it.p.facts.enc(s)
+        t = smt.SPAD16(b)
+        it.p.facts.add(z3.Length(t) == 16)
+        it.p.facts.add(z3.Implies(z3.Length(b) == 16, z3.And(t == b, smt.PAD16(b) == b)))
+        it.p.facts.add(z3.Implies(z3.Length(b) < 16, t != smt.PAD16(b)))
+        return t
+
+    it.model_modules['spec_prelude'] = __import__('pyvc.values', fromlist=['ModuleVal']).ModuleVal(
+        'spec_prelude', pre)
+
     @reg('isinstance_of')
     def isinstance_of(it, args, kw):
         return it.call(it.builtins['isinstance'], list(args), {})
